@@ -745,6 +745,9 @@ def idealTables : Tables where
     | .adf22bme => [(.beamEmission, true)]
   frontCalls := [("install_files", "install_adf15", true)]
   pecReindexes := false
+  encodeUpper := ["str", "lower"]
+  encodeLower := ["str", "lower"]
+  encodeFormat := "{} -> {}"
 
 /-- the hypothesis `T.wellFormed` of all theorems above is satisfiable -/
 theorem idealTables_wellFormed : idealTables.wellFormed = true := by decide
@@ -807,6 +810,27 @@ theorem rejected_call_not_atomic (r : Rate) (v : Val) (hv : validateAdf11 r = .o
   simp [Op.puts, UpdFn.prep, updPuts, seqPuts, entryPuts, UpdFn.precheck, isElem, Tables.tmplOfUpd,
     idealTables, Template.inst, renderSlots, renderSlot, UpdFn.normArgs, Arg.norm, UpdFn.pattern, prefixKV, itemKV,
     UpdFn.innerCheck, chargeOk, UpdFn.validate, hv, keyed]
+
+theorem lower_pad1 : lower " a" = " a" := by
+  apply String.toList_injective; simp [lower, String.toLower, String.toList_map]
+theorem lower_pad2 : lower "a " = "a " := by
+  apply String.toList_injective; simp [lower, String.toLower, String.toList_map]
+theorem lower_pad3 : lower "a  b" = "a  b" := by
+  apply String.toList_injective; simp [lower, String.toLower, String.toList_map]
+theorem lower_pad4 : lower "a b" = "a b" := by
+  apply String.toList_injective; simp [lower, String.toLower, String.toList_map]
+
+/-- the key of a transition is injective modulo **exactly** `str().lower()`: leading / trailing padding and inner double
+spaces are significant, `3` and `'3'` are one key, `3` and `'03'` are two (instances of `transition_key_iff_lower_equal`;
+the table obligation `encode_is_str_lower` pins that the source applies nothing but `str` and `lower`) -/
+theorem padding_and_spacing_are_significant :
+    encodeTransition (.str " a") (.str "c") ≠ encodeTransition (.str "a") (.str "c") ∧
+    encodeTransition (.str "a ") (.str "c") ≠ encodeTransition (.str "a") (.str "c") ∧
+    encodeTransition (.str "a  b") (.str "c") ≠ encodeTransition (.str "a b") (.str "c") ∧
+    encodeTransition (.int 3) (.str "c") = encodeTransition (.str "3") (.str "c") := by
+  have h3 : Int.repr 3 = "3" := by decide
+  simp only [encodeTransition, Level.render, lower_pad1, lower_pad2, lower_pad3, lower_pad4, lower_lit2, lower_lit3, h3]
+  decide
 
 /-- call arguments ↦ key components, made explicit: two transition arguments give the same key component iff their levels
 agree after `str().lower()` (no `>` in the upper levels — `transition_separator_collision` is the proved negation without
